@@ -224,7 +224,9 @@ func findRefSegMetaFromTime(a *asset, rep *RepData, time uint64, cfg *ResponseCo
 	refRep := a.refRep
 	refTotDur := uint64(refRep.duration())
 	nrSegs := uint64(len(refRep.Segments))
-	refTime := time * uint64(refRep.MediaTimescale) / uint64(rep.MediaTimescale)
+	// whole seconds and the rest separately: time x reference timescale overflows 64 bits for e.g. a 10 MHz video timescale
+	repTS, refTS := uint64(rep.MediaTimescale), uint64(refRep.MediaTimescale)
+	refTime := time/repTS*refTS + time%repTS*refTS/repTS
 	nrWraps := refTime / refTotDur
 	wrapTime := nrWraps * refTotDur
 	wrapNr := nrWraps * nrSegs
